@@ -34,3 +34,11 @@ for _f in sorted(_glob.glob(_os.path.join(_os.path.dirname(__file__), "texts_*.p
     TEXTS.update(getattr(_m, "TEXTS", {}))
     NOT_APPLICABLE.update(getattr(_m, "NOT_APPLICABLE", {}))
     HOOK_COMMITS.extend(getattr(_m, "HOOK_COMMITS", []))
+
+# texts contributed to another group's property: TEXTS_EXTRA = {"Cxx": dict(text=..., note=...)}
+for _f in sorted(_glob.glob(_os.path.join(_os.path.dirname(__file__), "texts_*.py"))):
+    _m = _importlib.import_module("checklib." + _os.path.basename(_f)[:-3])
+    for _pid, _t in getattr(_m, "TEXTS_EXTRA", {}).items():
+        if _pid in TEXTS:
+            TEXTS[_pid] = dict(TEXTS[_pid], text=TEXTS[_pid]["text"] + " " + _t.get("text", ""),
+                               note=TEXTS[_pid]["note"] + " " + _t.get("note", ""))
